@@ -1,6 +1,7 @@
 (* C13 - Tags on the wire are exactly the type's tags.
    Only statements closed by [exact]; proofs live in Proofs/. *)
-From PV Require Import Base.Bytes Model.Tag Model.Types Model.Enc Proofs.TagOctets Proofs.TagAlgebra Proofs.Spine.
+From PV Require Import Base.Bytes Model.Tag Model.Types Model.TableTypes Model.Enc Model.Dec Gen.Tables
+     Proofs.TagOctets Proofs.TagAlgebra Proofs.Spine Proofs.TagsetShape Proofs.RoundTrip1.
 Local Open Scope N_scope.
 
 (* identifier octets round trip for every class, form and number (no bound on the number) *)
@@ -54,3 +55,13 @@ Example C13_nonvacuous :
   /\ dec_ident [255; 129; 128; 0; 7] = Some (mkTag Priv true 16384, [7])
   /\ enc_len 65536 false = Ok [131; 1; 0; 0].
 Proof. repeat split. Qed.
+
+(* "decoding with that type accepts the encoding", stage 1, for every input: any simple base type under
+   any stack of IMPLICIT/EXPLICIT taggings with any class and any number; BER or DER encoder, any
+   of the three decoders *)
+Theorem C13_accepts_own_stage1 : forall ce cd T v b tl,
+  enc_ok ce -> wf_tags T = true -> stage1_val ce cd T v = true ->
+  encode ce true 0 T v = Ok b -> N.of_nat (length b) <= index_max ->
+  exists v', decode cd (Some T) (b ++ tl) = Ok (DV T v', tl) /\ abs T v' = abs T v.
+Proof. exact roundtrip_stage1. Qed.
+Print Assumptions C13_accepts_own_stage1.
